@@ -1355,17 +1355,27 @@ func vLemmaFailedInsertLeavesNoMarker(owner *Collection, inserts []uint32) {
 	}
 }
 
-// D16b (C12): at most one row per key - a second InsertKey of the same key in the same transaction must fail.
+// C12 (★D16b repaired): at most one row per key - a second InsertKey of a key this transaction has inserted fails, a
+// second UpsertKey of it updates the row the first one inserted (the lookup table only knows committed keys; the
+// transaction remembers its own). Two CONCURRENT transactions inserting one key are not covered (D16c, documented).
 //
 //@ lemma props=C12
-func vLemmaInsertKeyTwiceInOneTransaction(owner *Collection, key string) {
+func vLemmaInsertKeyTwiceInOneTransaction(owner *Collection, key string, upsert bool) {
 	vAssume(owner != nil && owner.pk != nil && owner.pk.seek != nil && vNothingHeld())
 	delete(owner.pk.seek, key)
 	txn := &Txn{owner: owner}
 	fn := func(Row) error { return nil }
+	vDidInsert, vDidQueryAt = 0, 0
 	first := txn.InsertKey(key, fn)
-	second := txn.InsertKey(key, fn)
-	vAssert("unique-within-transaction", first != nil || second != nil)
+	vAssume(first == nil) // (a failed insert does not take the key: its row goes away with the transaction)
+	firstRow := vLastInsertIdx
+	if upsert {
+		txn.UpsertKey(key, fn)
+		vAssert("upsert-of-a-key-inserted-in-this-transaction-updates-that-row", vDidInsert == 1 && vDidQueryAt == 1 && vLastQueryAt == firstRow)
+	} else {
+		second := txn.InsertKey(key, fn)
+		vAssert("unique-within-transaction", second != nil && vDidInsert == 1)
+	}
 }
 
 // C04 (aggregates; ★D11 repaired): each aggregate hands the kernel the block's values and exactly the selected rows
@@ -1450,18 +1460,26 @@ func vLemmaMaxOverPresentOnly(chs chunks[int64], chunk commit.Chunk, index []uin
 	}
 }
 
-// D6 (C01): the location an enum value is interned at holds exactly that value.
-//
+// C01 (★D6 repaired): the location an enum value is interned at holds exactly that value - also when another value
+// with the same 32 hash bits got there first (the hash is an arbitrary, non-injective function here).
+
+//@ loop target=column.(*columnEnum).findOrAdd index=0 props=C01
+func vLoopEnumScan(c *columnEnum, v []byte, rangeindex int, rangeslice []string) {
+	vInvariant(-1 <= rangeindex && rangeindex < len(rangeslice) && vSameSlice(rangeslice, c.data) &&
+		vForall(0, rangeindex+1, func(i int) bool { return rangeslice[i] != b2s(&v) }))
+	vBody()
+}
+
 //@ lemma props=C01
 func vLemmaEnumInterned(names []string, v []byte) {
 	vAssume(len(names) < 1<<20 && vIntmap != nil)
-	// table invariant: every known hash points at an existing location
+	// table invariant: every location the table knows exists
+	vAssume(vForall(0, 1<<32, func(h int) bool { at, ok := vIntmap[uint32(h)]; return !ok || int(at) < len(names) }))
 	c := &columnEnum{data: names, seek: new(intmap.Sync)}
 	at := c.findOrAdd(v)
-	if int(at) < len(c.data) { // (the table invariant "every stored location exists" is not part of this clause)
-		got := c.data[at]
-		vAssert("interned", len(got) == len(v) && vForall(0, len(v), func(i int) bool { return got[i] == v[i] }))
-	}
+	vAssert("interned-location-exists", int(at) < len(c.data))
+	vAssert("interned", c.data[at] == b2s(&v))
+	vAssert("earlier-values-kept", len(c.data) >= len(names) && vForall(0, len(names), func(i int) bool { return c.data[i] == names[i] }))
 }
 
 // D17 (C18, C10): values read inside an Ascend callback are read under the read latch of the row's block.
@@ -1509,10 +1527,11 @@ func vLemmaReset(owner *Collection, updates []*commit.Buffer, dirty []uint64, co
 	// data-structure invariant of a pooled transaction: beyond its length the dirty set's backing array is zero
 	whole := dirty[:cap(dirty)]
 	vAssume(vForall(len(dirty), len(whole), func(w int) bool { return whole[w] == 0 }))
-	txn := &Txn{owner: owner, updates: updates, dirty: dirty, columns: columns, reader: commit.NewReader(), inserts: vNondet[[]uint32]()}
+	txn := &Txn{owner: owner, updates: updates, dirty: dirty, columns: columns, reader: commit.NewReader(), inserts: vNondet[[]uint32](), keys: vNondet[map[string]uint32]()}
 	vPoolPuts, vSpareZero = 0, true
 	txn.reset()
 	vAssert("reserved-offsets-forgotten", len(txn.inserts) == 0)
+	vAssert("inserted-keys-forgotten", txn.keys == nil)
 	vAssert("every-page-released-once", vPoolPuts == len(updates))
 	vAssert("updates-empty", len(txn.updates) == 0)
 	vAssert("column-cache-empty", len(txn.columns) == 0)
@@ -1624,8 +1643,8 @@ func vLemmaChunks(owner *Collection) {
 }
 
 // ---------------------------------------------------------------------------------------------
-// One operation through an enum column (C01, C11): a put sets the presence bit of the row's cell and stores the
-// location the value was interned at (that the location holds the value is D6's clause); a delete clears the
+// One operation through an enum column (C01, C11): a put sets the presence bit of the row's cell and stores a
+// location that holds the value (★D6 repaired); a delete clears the
 // presence bit of exactly that cell - in whichever block the row lives; other kinds and other cells are untouched.
 
 //@ lemma props=C01,C11 mode=paths
@@ -1634,6 +1653,7 @@ func vLemmaApplyEnum(chs chunks[uint32], names []string, chunk commit.Chunk, buf
 	vAssume(idx < 1<<31 && commit.ChunkAt(idx) == chunk && last >= 0 && 0 <= s && s <= len(buf) && sel <= 4 && vShortDelta(last, idx, cur, chunk))
 	vAssume(int(n) <= len(v0) && len(buf) < 1<<30 && commit.VSeparate(buf, v0) && len(names) < 1<<20 && vIntmap != nil)
 	v := v0[:n]
+	vAssume(vForall(0, 1<<32, func(h int) bool { at, ok := vIntmap[uint32(h)]; return !ok || int(at) < len(names) })) // table invariant
 	col := &columnEnum{chunks: chs, data: names, seek: new(intmap.Sync)}
 	fill, locs := chs[chunk].fill, chs[chunk].data
 	o := idx - chunk.Min()
@@ -1653,12 +1673,16 @@ func vLemmaApplyEnum(chs chunks[uint32], names []string, chunk commit.Chunk, buf
 	default:
 		b.PutBytes(commit.Skip, idx, v)
 	}
+	// the value as a reader exposes it (that these are the bytes written: the round-trip lemma)
+	rc := commit.VReaderAt(b, s, oldLen, last)
+	rc.Next()
+	w := rc.Bytes()
 	r := commit.VReaderAt(b, s, oldLen, last)
 	col.Apply(chunk, r)
 	vAssert("consumed", commit.VAtEnd(r))
 	switch sel {
 	case 0:
-		vAssert("put", vBit(fill, o) && locs[o] == vIntmapLast)
+		vAssert("put", vBit(fill, o) && int(locs[o]) < len(col.data) && col.data[locs[o]] == b2s(&w)) // the stored location holds the value (★D6)
 	case 1:
 		vAssert("delete", !vBit(fill, o))
 	default:
@@ -2762,4 +2786,111 @@ func vLemmaRegistryDeleteColumn(c *columns, entries []columnEntry, name string, 
 	vAssert("exactly-that-entry-removed", len(now) == n-b2i(p >= 0))
 	vAssert("every-other-entry-kept-in-order", vForall(0, n, func(i int) bool { return i == p || vEntrySame(now[i-b2i(p >= 0 && p < i)], old[i]) }))
 	vAssert("loaded-list-not-modified", vForall(0, n, func(i int) bool { return vEntrySame(entries[i], old[i]) }))
+}
+
+// ---------------------------------------------------------------------------------------------
+// CreateColumn (C01, ★D9 repaired): a name that is registered is refused and nothing changes; otherwise the new
+// column is grown - under the collection mutex, before it is registered - to the end of the last block that has ever
+// been committed (every later Apply finds the block it writes to), and registered under its name.
+
+var (
+	vImplGrows   int
+	vImplGrowMax uint32
+	vImplGrowAll bool // ghost: every Grow of the implementation so far happened before the registration
+)
+
+//@ model column.Column.Grow
+func vModelColumnImplGrow(c Column, idx uint32) {
+	vImplGrows++
+	if idx > vImplGrowMax {
+		vImplGrowMax = idx
+	}
+	vImplGrowAll = vImplGrowAll && vStoreCalls == 0
+}
+
+//@ lemma props=C01
+func vLemmaCreateColumn(c *Collection, name string, column Column) {
+	vAssume(c != nil && vNothingHeld() && len(c.commits) < 1<<16 && c.opts.Capacity >= 0 && c.opts.Capacity < 1<<30 && c.count < 1<<31)
+	_, isKey := column.(*columnKey)
+	vAssume(!isKey) // (key columns: createColumnKey, not under contract)
+	vCol = c
+	vLoadSortIndex, vLoadForce = false, false
+	vLoadCalls, vStoreCalls, vImplGrows, vImplGrowMax, vImplGrowAll = 0, 0, 0, 0, true
+	err := c.CreateColumn(name, column)
+	if vLoadResult != nil {
+		vAssert("registered-name-refused-nothing-changes", err != nil && vStoreCalls == 0 && vImplGrows == 0)
+	} else {
+		vAssert("registered-under-its-name-under-the-mutex", err == nil && vStoreCalls == 1 && vStoreName[0] == name && vStoreMutex &&
+			vStoreMain[0] != nil && vStoreMain[0].Column == column && vStoreIndexes[0] == 0)
+		vAssert("grown-before-it-is-registered", vImplGrowAll)
+		if len(c.commits) > 0 {
+			vAssert("covers-every-block-ever-committed", vImplGrowMax >= commit.Chunk(len(c.commits)-1).Max())
+		}
+		vAssert("covers-the-capacity-option", vImplGrows >= 1 && int(vImplGrowMax) >= c.opts.Capacity)
+	}
+	vAssert("released", vNothingHeld())
+}
+
+// CreateTrigger (C19): registered under its own name and attached to the watched column under the collection mutex;
+// an unknown column, a missing name or a nil callback registers nothing.
+//
+//@ lemma props=C19
+func vLemmaCreateTrigger(c *Collection, triggerName, columnName string, fn func(r Reader)) {
+	vAssume(c != nil && vNothingHeld())
+	vCol = c
+	vLoadSortIndex, vLoadForce = false, false
+	vStoreCalls, vLoadCalls = 0, 0
+	err := c.CreateTrigger(triggerName, columnName, fn)
+	if err == nil {
+		vAssert("registered-under-its-name-then-attached-to-the-watched-column", fn != nil && vStoreCalls == 2 &&
+			vStoreName[0] == triggerName && vStoreMain[0] != nil && vStoreIndexes[0] == 0 &&
+			vStoreName[1] == columnName && vStoreMain[1] == vLoadFirst && vStoreIndexes[1] == 1 && vStoreIndex0[1] == vStoreMain[0])
+		vAssert("registered-under-the-collection-mutex", vStoreMutex)
+		tr, isTrigger := vStoreMain[0].Column.(*columnTrigger)
+		vAssert("a-trigger-watching-that-column", isTrigger && tr != nil && tr.name == columnName)
+	} else {
+		vAssert("failure-registers-nothing", vStoreCalls == 0)
+	}
+	vAssert("released", vNothingHeld())
+}
+
+// WithValue (C04): a missing column selects nothing; otherwise, per block, a selected row stays exactly if the column
+// holds a value at ITS offset (block start + bit) and the predicate accepts that value.
+
+var (
+	vValueCalls int
+	vValueAt    uint32
+	vValueV     any
+	vValueOK    bool
+)
+
+//@ model column.Column.Value
+func vModelColumnImplValue(c Column, idx uint32) (any, bool) {
+	vValueCalls++
+	vValueAt = idx
+	vValueV, vValueOK = vNondet[any](), vNondet[bool]()
+	return vValueV, vValueOK
+}
+
+//@ lemma props=C04 use=column.(*Txn).rangeRead
+func vLemmaWithValue(owner *Collection, index []uint64, name string, pred func(v interface{}) bool) {
+	vAssume(owner != nil && vNothingHeld() && pred != nil && len(index) <= 1<<25)
+	vCol = owner
+	txn := &Txn{owner: owner, setup: true, index: index}
+	vColumnAtN, vRangeReadCalls, vValueCalls = 0, 0, 0
+	vSpareZero = false
+	txn.WithValue(name, pred)
+	if !vColumnAtFound[0] {
+		vAssert("missing-column-selects-nothing", len(txn.index) == 0 && vRangeReadCalls == 0)
+	} else {
+		vAssert("every-block-filtered", vRangeReadCalls == 1)
+		w, x := vRangeReadWindow, vFilterBit
+		if vFilterAsked {
+			vAssert("asked-for-the-value-at-the-row's-own-offset", vValueCalls == 1 && vValueAt == vRangeReadChunk.Min()+x)
+			vAssert("kept-iff-a-value-is-held-and-accepted", vBit(w, x) == (vValueOK && pred(vValueV)))
+		} else {
+			vAssert("unselected-rows-not-looked-at", vValueCalls == 0)
+		}
+	}
+	vAssert("released", vNothingHeld())
 }
